@@ -169,6 +169,8 @@ static void run_script(const args_t *a, long idx, const unsigned char *pre, long
     memset(buf, junk, sizeof buf);
     MSAN_POISON(buf, 32);
     fds0 = count_fds();
+    /* whatever an earlier, unrelated call left in errno is not information about this one */
+    errno = idx % 4 == 0 ? EINTR : idx % 4 == 1 ? EAGAIN : idx % 4 == 2 ? 0 : EPERM;
     if (via_prng) {
         tinyjambu_prng_state_t st;
         m_drbg_t sh;
